@@ -388,3 +388,88 @@ Proof.
   split; [apply ex_lines_at|]. split; [split; reflexivity|]. vm_compute. repeat split.
 Qed.
 End C01_translated_write.
+
+(* ------------------------------------------------------------------------------------------ *)
+(* THE MODEL IS THE C TEXT (coq/TrSplice.v, TrSpliceMove.v, TrSpliceCut.v, TrSpliceMarks.v, TrSpliceAll.v, TrSpliceModels.v):
+   lbuf_replace of /repo/lbuf.c -- the splice every edit, read, undo and redo goes through --, translated by tools/c2clite.py
+   (coq/GenCFuncs.v, whitelist tools/c2clite.d/55_splice.list) and RUN by the checked semantics of coq/CLite.v (malloc appends a
+   fresh block of indeterminate cells, free empties a block so that any later access through the pointer is Err EOob, memcpy /
+   memmove read and write cell by cell, checked).
+   lbuf_at m lb blk bln bgl lbs lines globs mk cap: block lb of m is the struct lbuf blk (75 cells), ln points to the start of
+   block bln (cap pointer cells, the first |lines| point at offset 0 to the blocks lbs), ln_glob to the start of block bgl (cap
+   cells, the first |lines| hold globs), block (nth i lbs) holds line i with its newline as a C string, lb / bln / bgl / lbs
+   pairwise distinct, ln_n = |lines|, ln_sz = cap > 0, mark[] holds the rows mk.
+   C01_tr_lbuf_replace: from ANY memory with lbuf_at, any pos + n_del <= |lines|, s NULL or a NUL-terminated text in a block
+   outside the buffer, the call returns Ok -- every load, store, memcpy, memmove inside a live block, no double free, no signed
+   overflow, no fuel exhausted (splice_fuel) -- and the new memory satisfies lbuf_at for
+     lines' = firstn pos lines ++ split_lines s ++ skipn (pos + n_del) lines   (IoDefs: every inserted line newline-terminated),
+     capacity' = IoDefs.grow (C01_tr_splice_is_io: exactly the result of the model's lbuf_replace),
+     globs' / marks' as ExDefs says (Properties_C04.v: C04_tr_splice_is_ex),
+   the blocks of the deleted lines are freed, the old arrays are freed exactly when the table grew (arr_kept), every block that
+   existed before and is not part of the buffer is unchanged, the struct's cells 68.. (useq, hist, ...) are unchanged.
+   Side conditions, all exact: the sizes fit an int (|lines| + n_ins, the final capacity, |s| + 2), the mark rows fit (row_fits:
+   lb->mark[i] += n_ins - n_del does not overflow).  NOT covered: a buffer with ln == NULL (as lbuf_make leaves it): its first
+   growth calls memcpy(nln, NULL, 0), undefined in C11 (7.24.1p2) and rejected by CLite.v (Err EShape, see the Example). *)
+From NV Require TrSplice TrSpliceMarks TrSpliceAll TrSpliceModels.
+Section C01_translated_splice.
+Import CLite CLiteProps GenCFuncs TrSplice TrSpliceMarks TrSpliceAll TrSpliceModels.
+Local Open Scope Z_scope.
+
+Theorem C01_tr_lbuf_replace : forall (m : mem) lb blk bln bgl lbs lines globs mk cap sv t nul pos nd cap' d fuel,
+  let n := length lines in let ni := linecount t in
+  let need := Z.of_nat n + Z.of_nat ni - Z.of_nat nd in
+  lbuf_at m lb blk bln bgl lbs lines globs mk cap ->
+  s_text m (lb :: bln :: bgl :: lbs) sv t nul ->
+  (pos + nd <= n)%nat ->
+  Z.of_nat n + Z.of_nat ni <= 2147483647 ->
+  grow (grow_fuel need) need (Z.of_nat cap) = Some cap' -> cap' <= 2147483647 ->
+  Forall (row_fits (Z.of_nat pos) (Z.of_nat nd) (Z.of_nat ni)) mk ->
+  (splice_fuel n ni nd <= fuel)%nat ->
+  exists m' blk' bln' bgl' base,
+    callf cprog fuel (S (S (S d))) F_lbuf_replace [VPtr lb 0; sv; VInt (Z.of_nat pos); VInt (Z.of_nat nd)] m = Ok (VUndef, m')
+    /\ lbuf_at m' lb blk' bln' bgl' (splice lbs (seq base ni) pos nd) (splice lines (split_lines t) pos nd)
+         (splice_globs globs pos nd ni) (splice_marks nul pos nd ni mk) (Z.to_nat cap')
+    /\ need < cap' /\ Z.of_nat cap <= cap'
+    /\ (length m <= base)%nat /\ (length m <= length m')%nat
+    /\ (forall c, (c < length m)%nat -> ~ In c (lb :: bln :: bgl :: lbs) -> nth_error m' c = nth_error m c)
+    /\ (forall b, In b (firstn nd (skipn pos lbs)) -> nth_error m' b = Some [])
+    /\ arr_kept m m' bln bln' /\ arr_kept m m' bgl bgl'
+    /\ (forall j, (68 <= j)%nat -> nth_error blk' j = nth_error blk j).
+Proof. exact tr_lbuf_replace. Qed.
+Print Assumptions C01_tr_lbuf_replace.
+
+(* the lines and the capacity of that memory are the result of the model's lbuf_replace (with its growth loop) *)
+Theorem C01_tr_splice_is_io : forall lines cap t pos nd cap',
+  let need := Z.of_nat (length lines) + Z.of_nat (linecount t) - Z.of_nat nd in
+  grow (grow_fuel need) need (Z.of_nat cap) = Some cap' ->
+  lbuf_replace {| ln := lines; ln_sz := Z.of_nat cap |} t pos nd
+  = Some {| ln := splice lines (split_lines t) pos nd; ln_sz := cap' |}.
+Proof. exact splice_is_io. Qed.
+Print Assumptions C01_tr_splice_is_io.
+
+(* not vacuous, and the translated lbuf_replace RUNS: the buffer "a\n", "b\n" (capacity 3, ln_glob 0, 2) in the blocks behind the
+   program's globals, the text "x\ny" in a block of its own; lbuf_replace(lb, "x\ny", 1, 1): the table must grow (2 + 2 - 1 >= 3),
+   so the old arrays (blocks G+1, G+2) and the deleted line (G+4) are freed, the new arrays are G+6, G+7, the new lines G+8 = "x\n",
+   G+9 = "y\n" (the newline supplied); ln_glob of the replaced line is inherited (2), of the added line cleared; ln_n = 3,
+   ln_sz = 6; marks '[' = 1, ']' = 2.  A buffer with ln == NULL is rejected (memcpy from NULL). *)
+Example C01_tr_lbuf_replace_runs :
+  let G := ex_G in
+  lbuf_at ex_mem G ex_blk (G + 1) (G + 2) [G + 3; G + 4]%nat ex_lines [0; 2] (repeat (-1) 32) 3 /\
+  s_text ex_mem [G; G + 1; G + 2; G + 3; G + 4]%nat (VPtr (G + 5) 0) ex_text false /\
+  grow (grow_fuel 3) 3 3 = Some 6 /\ splice_fuel 2 2 1 = 38%nat /\
+  match callf cprog 38 3 F_lbuf_replace [VPtr G 0; VPtr (G + 5) 0; VInt 1; VInt 1] ex_mem with
+  | Ok (v, m') => Some (v, skipn (G + 1) m', firstn 4 (skipn 64 (nth G m' [])), firstn 2 (skipn 28 (nth G m' [])))
+  | Err _ => None
+  end = Some (VUndef,
+              [ []; []; cstr_block (zb [97; 10]%N); []; cstr_block (zb ex_text);
+                [VPtr (G + 3) 0; VPtr (G + 8) 0; VPtr (G + 9) 0; VUndef; VUndef; VUndef];
+                [VInt 0; VInt 2; VInt 0; VUndef; VUndef; VUndef];
+                cstr_block (zb [120; 10]%N); cstr_block (zb [121; 10]%N) ],
+              [VPtr (G + 6) 0; VPtr (G + 7) 0; VInt 3; VInt 6], [VInt 1; VInt 2]) /\
+  splice ex_lines (split_lines ex_text) 1 1 = [[97; 10]; [120; 10]; [121; 10]]%N /\
+  splice_globs [0; 2] 1 1 2 = [0; 2; 0] /\
+  callf cprog 38 3 F_lbuf_replace [VPtr G 0; VPtr (G + 1) 0; VInt 0; VInt 0] ex_fresh = Err EShape.
+Proof.
+  cbv zeta. split; [exact ex_at|]. split; [exact ex_s|]. vm_compute. repeat split.
+Qed.
+End C01_translated_splice.
